@@ -264,7 +264,24 @@ class GarbageCollector:
         return deleted_count
 
     def _normalize_path(self, path: str) -> str:
-        """Normalize path to be relative to table root and strip leading slashes."""
-        if path.startswith(self.table_path):
-            path = path[len(self.table_path):]
-        return path.lstrip("/")
+        """Normalize path to be relative to table root and strip leading slashes.
+
+        Paths written by this library are table-relative ('data/x', '/data/x',
+        'metadata/manifests/y'); only a caller-supplied TRUE absolute path that
+        lies inside an absolute table root needs the root removed. Stripping the
+        table location as a bare string prefix mangled table-relative paths
+        whenever the location was spelled like the start of an internal
+        directory name (relative 'd' / 'data' / 'm' / 'metadata', or '/data'):
+        listed and reachable paths then normalised differently, so every live
+        data file looked like an orphan (or every manifest looked missing).
+        """
+        relative = path.lstrip("/")
+        first_component = relative.split("/", 1)[0]
+        root = self.table_path.rstrip("/")
+        if (
+            first_component not in ("data", "metadata")
+            and root.startswith("/")
+            and path.startswith(root + "/")
+        ):
+            return path[len(root):].lstrip("/")
+        return relative
